@@ -101,6 +101,16 @@ def check_blocked_quit(run, case, tier='quick'):
             run.ev('blocked_quits_honoured')
             run.add_to_set('blocked_request_shapes', repr(chunks))
             run.case(h(['blocked', case['spec']['uuid'], repr(chunks)]))
+        # the same on a terminal: status / help requests typed one at a time while the generator is held - nothing but the stream may come out, all of it
+        out, err, rc, to, info = cli.run_cli_blocked('pcfg_guesser.py', ['-r', name, '-s', sn + 'pty'], [b'\n', b'h\n', b'\n'], settle=0.5, use_pty=True)
+        run.ev('cli_runs'); run.ev('blocked_cli_runs'); run.add_to_set('stdin_conditions', 'pty typed ENTER/h while blocked')
+        if not to and info['blocked']:
+            if out != ref:
+                want = set(ref.split(b'\n'))
+                foreign = [l.decode('utf-8', 'replace') for l in out.split(b'\n') if l not in want][:3]
+                run.violation(f'status / help requests typed on a terminal while the generator was blocked changed stdout ({out.count(10)} lines of {ref.count(10)}; lines that are no guesses: {foreign})',
+                              case, observed=foreign); return
+            run.ev('typed_requests_while_blocked_left_the_stream_intact')
         run.sample({'cli': 'pcfg_guesser.py (stdout back-pressure)', 'stream_bytes': len(ref), 'largest_preterminal_bytes': maxpt, 'requests': [repr(c) for c in reqs]})
     finally:
         for f in os.listdir(repo.scratch()):
